@@ -9,7 +9,7 @@ import (
 	"strconv"
 
 	"verif/harness/core"
-	_ "verif/harness/drive"
+	"verif/harness/drive"
 )
 
 func seedFromEnv() uint64 {
@@ -55,6 +55,17 @@ func main() {
 		race := fs.Bool("race", false, "")
 		fs.Parse(os.Args[2:])
 		os.Exit(core.Worker(*prop, *tier, *seed, *shard, *nshards, *out, *race))
+	case "crashchild":
+		fs := flag.NewFlagSet("crashchild", flag.ExitOnError)
+		dir := fs.String("dir", "", "")
+		backend := fs.String("backend", "", "")
+		seed := fs.Uint64("seed", 0, "")
+		start := fs.Int("start", 0, "")
+		killop := fs.Int("killop", -1, "")
+		killcall := fs.Int("killcall", 0, "")
+		ack := fs.String("ack", "", "")
+		fs.Parse(os.Args[2:])
+		os.Exit(drive.CrashChild(*dir, *backend, *seed, *start, *killop, *killcall, *ack))
 	case "replay":
 		// re-executes the single case a replay file describes
 		if len(os.Args) < 3 {
